@@ -74,6 +74,15 @@ def contains(d, e, path=""):
     return None if d == e else path
 
 
+def reorder(x):
+    """the same values in dictionaries filled in the opposite key order (a caller assembling the dictionary by hand)"""
+    if isinstance(x, dict):
+        return {k: reorder(v) for k, v in reversed(list(x.items()))}
+    if isinstance(x, list):
+        return [reorder(v) for v in x]
+    return x
+
+
 def roundtrip(codec, b, tag):
     """directions (a) and (b) on canonical bytes b"""
     un, ma = codecs()[codec]
@@ -89,6 +98,14 @@ def roundtrip(codec, b, tag):
         b3 = [bytes(ma(d)), bytes(ma(d))]
     except Exception as e:   # noqa: BLE001
         return [("%s/build_raises" % tag, "%s: rebuilding the parsed response raised %s: %s" % (tag, type(e).__name__, e))], d
+    try:
+        b4 = bytes(ma(reorder(copy.deepcopy(d))))
+    except Exception as e:   # noqa: BLE001
+        b4 = ("raised %s: %s" % (type(e).__name__, e)).encode()
+    if b4 != b2:
+        out.append(("%s/key_order" % tag, "%s: the same values in dictionaries filled in the opposite key order build %s, in parser order %s"
+                    % (tag, b4[:48].hex() if not b4.startswith(b"raised") else b4.decode(), b2[:48].hex())))
+        return out, d
     for n_, bb in enumerate(b3):
         if bb != b2:
             out.append(("%s/rebuild_differs" % tag, "%s: build number %d from the same parsed values gives %s, the first gave %s" % (tag, n_ + 2, bb[:48].hex(), b2[:48].hex())))
